@@ -37,7 +37,7 @@ DEFAULT_PROFILE = dict(
     flags=[[], [], ["buffered"], ["filter"], ["buffered", "filter"]],
     p_dec=0.2, p_params=0.6, p_bad_args=0.04, p_rl=0.6, p_loopcond=0.3, p_nested_def=0.25, p_calldefs=0.3,
     p_bparams=0.35, p_empty=0.08, ret_in_flagged=False, loop_in_body_under_for=False, eh=0.0, nincs=(0, 0), p_ieh=0.5,
-    p_unbound=0.1, p_amark=0.3, p_fm=0.5, p_dm=0.5,
+    p_unbound=0.1, p_amark=0.3, p_fm=0.5, p_dm=0.5, p_cmark=0.25,
 )
 
 
@@ -116,10 +116,13 @@ class Gen:
             ps.append(dict(n="q", kind="opt", dv="dq"))
         if r.random() < .3:
             ps.append(dict(n="a", kind="star", dv="-"))
+            ko = []
             if r.random() < .5:
-                ps.append(dict(n="k", kind="kwo", dv="-"))
+                ko.append(dict(n="k", kind="kwo", dv="-"))
             if r.random() < .5:
-                ps.append(dict(n="k2", kind="kwopt", dv="dk2"))
+                ko.append(dict(n="k2", kind="kwopt", dv="dk2"))
+            r.shuffle(ko)          # a keyword-only default may precede a required keyword-only parameter
+            ps += ko
         if r.random() < .3:
             ps.append(dict(n="kw", kind="dstar", dv="-"))
         return ps
@@ -332,11 +335,18 @@ class Gen:
             return None
         return dict(k="inc", t=self.rng.randint(1, self.nincs))
 
+    def cmark(self, ctx, rl_ok=False):
+        """a mark inside the expression of a control line (iterable, condition, context expression), or None."""
+        if self.rng.random() >= self.p["p_cmark"]:
+            return dict(NONE)
+        return dict(k="mark", m=self.nid(), rl=bool(rl_ok and self.loop_ok(ctx) and self.rng.random() < .5),
+                    w="x" if ctx.hcx else "s", ctl=True)
+
     def cond(self, ctx):
         r = self.rng
         if self.loop_ok(ctx) and r.random() < self.p["p_loopcond"]:
-            return dict(ck=r.choice(["even", "first"]), v=False)
-        return dict(ck="const", v=r.random() < .55)
+            return dict(ck=r.choice(["even", "first"]), v=False, cm=self.cmark(ctx))
+        return dict(ck="const", v=r.random() < .55, cm=self.cmark(ctx))
 
     def g_if(self, ctx, depth):
         r = self.rng
@@ -351,10 +361,11 @@ class Gen:
         else:
             a = self.gen_suite(ctx.child(loop_refs=ctx.loop_refs + 1, in_loop=True, under_for=True), depth - 1)
         els = self.gen_suite(ctx.child(in_else=True, under_for=True), depth - 1) if r.random() < .35 else []
-        return dict(k="for", n=r.choice([0, 1, 2, 2, 3]), sized=r.random() < .7, a=a, els=els, has_else=bool(els) or r.random() < .2)
+        return dict(k="for", n=r.choice([0, 1, 2, 2, 3]), sized=r.random() < .7, a=a, els=els, has_else=bool(els) or r.random() < .2,
+                    im=self.cmark(ctx, rl_ok=True))
 
     def g_while(self, ctx, depth):
-        return dict(k="while", n=self.rng.choice([0, 1, 2, 3]), id=self.nid(),
+        return dict(k="while", n=self.rng.choice([0, 1, 2, 3]), id=self.nid(), cm=self.cmark(ctx),
                     a=self.gen_suite(ctx.child(in_loop=True, loop_refs=0 if not ctx.loop_refs else ctx.loop_refs), depth - 1))
 
     def g_try(self, ctx, depth):
@@ -362,7 +373,7 @@ class Gen:
 
     def g_with(self, ctx, depth):
         i = self.nid()
-        return dict(k="with", t1="w%d(" % i, t2=")w%d" % i, a=self.gen_suite(ctx.child(), depth - 1))
+        return dict(k="with", t1="w%d(" % i, t2=")w%d" % i, cm=self.cmark(ctx), a=self.gen_suite(ctx.child(), depth - 1))
 
     # ---- whole program
     def gen_prog(self):
@@ -447,8 +458,13 @@ def walk(stmts, fn, path=()):
     for s in stmts:
         fn(s, path)
         p2 = path + (s["k"],)
+        for key in ("im", "cm"):
+            if isinstance(s.get(key), dict) and s[key].get("k") == "mark":
+                fn(s[key], p2 + ("expr",))
         if s["k"] == "if":
             for arm in s["arms"]:
+                if arm["c"].get("cm", NONE).get("k") == "mark":
+                    fn(arm["c"]["cm"], p2 + ("expr",))
                 walk(arm["a"], fn, p2)
         for key in SUB:
             if key in s and isinstance(s[key], list):
@@ -502,12 +518,20 @@ TLA_KEYS = {  # fields of each record kind that the spec reads
     "text": ("k", "t"), "mark": ("k", "m", "rl", "w"), "expr": ("k", "parts"), "lit": ("k", "t"), "val": ("k", "v"),
     "call": ("k", "d", "via", "args"), "cap": ("k", "d", "args"), "cbody": ("k", "args"),
     "callc": ("k", "parts", "body", "bparams", "defs"), "block": ("k", "d"), "inc": ("k", "t"),
-    "if": ("k", "arms", "els"), "for": ("k", "n", "sized", "a", "els"), "while": ("k", "n", "a"), "try": ("k", "a", "h"),
-    "with": ("k", "t1", "t2", "a"), "py": ("k", "v", "t"), "ret": ("k",), "brk": ("k",), "cont": ("k",),
+    "if": ("k", "arms", "els"), "for": ("k", "n", "sized", "a", "els", "im"), "while": ("k", "n", "a", "cm"), "try": ("k", "a", "h"),
+    "with": ("k", "t1", "t2", "a", "cm"), "py": ("k", "v", "t"), "ret": ("k",), "brk": ("k",), "cont": ("k",),
 }
 
 
+NONE = {"k": "none"}
+_DEFAULTS = {"for": {"im": NONE}, "while": {"cm": NONE}, "with": {"cm": NONE}}
+
+
 def tla(v):
+    if isinstance(v, dict) and v.get("k") in _DEFAULTS:
+        v = dict(_DEFAULTS[v["k"]], **v)
+    if isinstance(v, dict) and "ck" in v and "cm" not in v:
+        v = dict(v, cm=NONE)
     if isinstance(v, dict) and "k" in v and v["k"] in TLA_KEYS:
         return "[" + ", ".join("%s |-> %s" % (f, tla(v[f])) for f in TLA_KEYS[v["k"]]) + "]"
     if isinstance(v, dict):
@@ -786,10 +810,16 @@ class Conc:
             return str(bool(v))
         return self.r.choice(["True", "1 == 1", "not []", "'a'"] if v else ["False", "1 == 2", "[]", "None", "''"])
 
+    def wrap(self, mark, expr):
+        """the expression of a control line, with the mark (if any) evaluated first."""
+        if not mark or mark.get("k") != "mark":
+            return expr
+        return "(%s, %s)[1]" % (self.mk(mark), expr)
+
     def cond(self, c):
         if c["ck"] == "const":
-            return self.truth(c["v"])
-        return "loop." + c["ck"]
+            return self.wrap(c.get("cm"), self.truth(c["v"]))
+        return self.wrap(c.get("cm"), "loop." + c["ck"])
 
     def iterable(self, n, sized):
         r = self.r
@@ -844,19 +874,21 @@ class Conc:
                 o += self.ctl("else:") + self.suite(s["els"])
             return o + self.end("if")
         if k == "for":
-            o = self.ctl("for v%d in %s:" % (r.randrange(1000) if not self.plain else 0, self.iterable(s["n"], s["sized"]))) + self.suite(s["a"])
+            o = self.ctl("for v%d in %s:" % (r.randrange(1000) if not self.plain else 0,
+                                            self.wrap(s.get("im"), self.iterable(s["n"], s["sized"])))) + self.suite(s["a"])
             if s["els"] or s.get("has_else"):
                 o += self.ctl("else:") + self.suite(s["els"])
             return o + self.end("for")
         if k == "while":
             w = "w%d" % s["id"]
-            return (self.pyblock(["%s = 0" % w]) + self.ctl("while %s < %d:" % (w, s["n"])) + self.pyblock(["%s += 1" % w])
+            return (self.pyblock(["%s = 0" % w]) + self.ctl("while %s:" % self.wrap(s.get("cm"), "%s < %d" % (w, s["n"]))) + self.pyblock(["%s += 1" % w])
                     + self.suite(s["a"]) + self.end("while"))
         if k == "try":
             exc = "except Boom:" if self.plain else r.choice(["except Boom:", "except Boom as e:", "except (Boom,):"])
             return self.ctl("try:") + self.suite(s["a"]) + self.ctl(exc) + self.suite(s["h"]) + self.end("try")
         if k == "with":
-            return self.ctl("with cm(context, '[%s]', '[%s]'):" % (s["t1"], s["t2"])) + self.suite(s["a"]) + self.end("with")
+            return (self.ctl("with cm(%s, '[%s]', '[%s]'):" % (self.wrap(s.get("cm"), "context"), s["t1"], s["t2"]))
+                    + self.suite(s["a"]) + self.end("with"))
         if k == "py":
             return self.pyblock(["%s = %s" % (s["v"], self.pystr(s["t"]))])
         if k == "ret":
